@@ -7,7 +7,7 @@ property monitors on real traces -> on any broken obligation / disagreement sear
 input -> verdict + evidence."""
 import sys, os, json, random, shutil, time, re, traceback
 sys.path.insert(0, os.path.dirname(os.path.abspath(__file__)))
-import vlib, kapi, genapi, monitors, ksizes, kcrypto, kattr, kguard, kstore, ktoken, kfuzz, kdiff
+import vlib, kapi, genapi, monitors, ksizes, kcrypto, kattr, kguard, kstore, ktoken, kfuzz, kdiff, kproc, kenc
 
 TRUSTED_BASE = [
     'Coq 8.16.1 kernel (coqc, full .vo build); vm_compute used for reflection over regenerated tables and finite sweeps; no native_compute',
@@ -321,7 +321,7 @@ def _kc_job(args):
             return _kc_job((fn,) + tuple(a))
         finally:
             P11.DEFAULT_BACKEND = 'file'
-    mod = kattr if fn.startswith('seq_attr') else kguard if fn.startswith('seq_guard') else kstore if fn in ('seq_reject', 'seq_persist') else ktoken if fn == 'seq_tokens' else kfuzz if fn in ('seq_files', 'seq_api', 'seq_incomplete') else kdiff if fn == 'seq_cross' else kcrypto
+    mod = kattr if fn.startswith('seq_attr') else kguard if fn.startswith('seq_guard') else kstore if fn in ('seq_reject', 'seq_persist') else ktoken if fn == 'seq_tokens' else kfuzz if fn in ('seq_files', 'seq_api', 'seq_incomplete') else kdiff if fn == 'seq_cross' else kproc if fn in ('seq_proc', 'seq_race') else kenc if fn == 'seq_enc' else kcrypto
     return getattr(mod, fn)(*a)
 
 
@@ -621,6 +621,43 @@ def check_C20(res, tier, seed):
     finish_proof_side(c, res, 'C20')
 
 
+def check_C15(res, tier, seed):
+    c = prepare('C15', res, extra_vo=['extract/ExtractCodec.vo'])
+    codecdrv = vlib.build_ocaml('codecdrv', 'codec_model', 'codecdrv.ml')
+    shim = c.harness['fsshim']
+    stats, distinct, samples = run_kcrypto(c, res, 'C15', 'seq_proc', 120 if tier == 'quick' else 4000, seed, extra=(shim,), stream='K-proc')
+    known = {k['key']: k for k in vlib.known_findings() if k['kind'] == 'known' and k['property'] == 'C15'}
+
+    def cls(msg):
+        if msg.startswith('set_vs_set_same:') and ' is lost ' in msg and 'lost-update' in known:
+            return 'key=lost-update %s' % known['lost-update']['text'][:200]
+        return None
+    stats2, distinct2, samples2 = run_kcrypto(c, res, 'C15', 'seq_race', 160 if tier == 'quick' else 5000, seed, extra=(shim, codecdrv), stream='K-race', classify=cls)
+    res.coverage.update({'evaluations': stats['calls'] + stats2['calls'], 'distinct_nontrivial': distinct + distinct2,
+                         'rule': 'K-proc: two or three library processes on one token directory, 14-24 steps: a random process creates (public / private), relabels, changes CKA_OBJECT_ID of, or destroys a token object; the ghost (the fold of the committed writes, as in the theorem) is updated on CKR_OK; after every step another process searches and reads everything without re-initialising and must see exactly the ghost, and a handle it holds for a destroyed object must be invalid.  K-race: process A\'s set / create / destroy is paused by the shim before its k-th file-system call (k random over the whole call), process B runs a complete call on the same object, another object, or a search (overtaking A or waiting for its lock), A is released; both must return, both must then see the same objects, every committed effect must be present (no lost update, no resurrection, no duplicate), every object file must decode in the extracted codec.',
+                         'samples': samples, 'k_proc': stats, 'k_race': stats2, 'traces_validated_against_impl': stats['sequences'] + stats2['sequences'],
+                         'not_covered': 'SQLite backend; more than one pause point per call; three-way races'})
+    finish_proof_side(c, res, 'C15')
+
+
+def check_C06(res, tier, seed):
+    c = prepare('C06', res, extra_vo=['extract/ExtractCodec.vo'])
+    codecdrv = vlib.build_ocaml('codecdrv', 'codec_model', 'codecdrv.ml')
+    known = {k['key']: k for k in vlib.known_findings() if k['kind'] == 'known' and k['property'] == 'C06'}
+
+    def cls(msg):
+        if msg.startswith('cross-token:') and 'cross-token-session' in known:
+            return 'key=cross-token-session %s' % known['cross-token-session']['text'][:200]
+        return None
+    stats, distinct, samples = run_kcrypto(c, res, 'C06', 'seq_enc', 160 if tier == 'quick' else 5000, seed, extra=(codecdrv,), stream='K-enc', classify=cls)
+    stats2, samples2 = run_kapi(c, res, 'C06', 'objects', 120 if tier == 'quick' else 4000, 45, seed, 'monitor_c01')
+    res.coverage.update({'evaluations': stats['calls'] + stats2['ops'], 'distinct_nontrivial': distinct + stats2['distinct_traces'],
+                         'rule': 'K-enc: per history a random objectstore.umask, 5-9 steps storing byte strings of private objects through C_CreateObject (data, AES / generic / RSA / DSA / DH keys, certificates), C_GenerateKey, C_GenerateKeyPair, C_UnwrapKey, C_DeriveKey, C_CopyObject with public-to-private upgrade, C_SetAttributeValue, interleaved with user / SO PIN changes; then (1) every value of >= 5 bytes that C_GetAttributeValue returned for a private object is searched in all bytes below directories.tokendir, (2) an independent decoder (extracted Coq codec for the file format, hashlib SHA-256 and the pure-Python AES of tools/refcrypto.py for the PIN blobs and ciphertexts) opens both PIN blobs with the correct PINs, must get the same master key, must fail with wrong PINs, decrypts every byte-string attribute of every private object file and compares with the API, (3) all IVs are distinct, (4) every file and directory has no mode bit outside the umask.  K-api: the core model (with the encryption theorems) against the library.',
+                         'samples': samples, 'k_enc': stats, 'k_api': stats2, 'traces_validated_against_impl': stats['sequences'] + stats2['sequences'],
+                         'not_covered': 'SQLite backend; nested template entries (excluded by the property)'})
+    finish_proof_side(c, res, 'C06')
+
+
 def check_C05(res, tier, seed):
     c = prepare('C05', res, extra_vo=['extract/ExtractCodec.vo'])
     codecdrv = vlib.build_ocaml('codecdrv', 'codec_model', 'codecdrv.ml')
@@ -671,7 +708,7 @@ def kapi_check(pid, profile, monitor_name, rule, nq=400, nt=12000, nops=45):
 
 
 RULE = 'model-guided random call sequences over 2 tokens and up to ~8 sessions (%s profile of tools/genapi.py); a trace is non-trivial when at least 3 calls after the prelude succeed; distinct = distinct (op, rv) sequences'
-CHECKS = {'C03': check_C03, 'C07': check_C07, 'C05': check_C05, 'C09': check_C09, 'C16': check_C16, 'C14': check_C14, 'C17': check_C17, 'C20': check_C20, 'C12': check_C12, 'C02': attr_check('C02'), 'C08': attr_check('C08'), 'C10': check_C10, 'C13': check_C13,
+CHECKS = {'C03': check_C03, 'C07': check_C07, 'C05': check_C05, 'C09': check_C09, 'C16': check_C16, 'C14': check_C14, 'C17': check_C17, 'C20': check_C20, 'C15': check_C15, 'C06': check_C06, 'C12': check_C12, 'C02': attr_check('C02'), 'C08': attr_check('C08'), 'C10': check_C10, 'C13': check_C13,
           'C01': kapi_check('C01', 'objects', 'monitor_c01', RULE % 'objects'),
           'C04': kapi_check('C04', 'pins', 'monitor_c03', RULE % 'pins'),
           'C11': kapi_check('C11', 'handles', 'monitor_c11', RULE % 'handles'),
